@@ -24,6 +24,7 @@ from typing import Any, Iterable
 import yaml
 
 from sigma.exceptions import SigmaConfigurationError, SigmaSecurityError, SigmaValueError
+from sigma.processing.templates import template_rendering_active
 from sigma.processing.transformations.placeholder import BasePlaceholderTransformation
 from sigma.types import Placeholder, SigmaString
 
@@ -84,10 +85,14 @@ class ExternalSourceBaseTransformation(BasePlaceholderTransformation):
                 self._filter_pattern = re.compile(self.filter)
             except re.error as e:
                 raise SigmaConfigurationError(f"Invalid regex in 'filter': {e}") from e
+        if template_rendering_active():  # an opt-in passed by template code is not the caller's
+            self.allow_external_sources = False
         super().__post_init__()
 
     def _external_sources_allowed(self) -> bool:
         """Return *True* if external data sources are permitted."""
+        if template_rendering_active():  # never from inside a pipeline template
+            return False
         if self.allow_external_sources:
             return True
         return os.environ.get(PYSIGMA_ALLOW_EXTERNAL_SOURCES_ENV, "").lower() in (
